@@ -39,6 +39,7 @@ import (
 	"reflect"
 	"strings"
 	"testing"
+	"time"
 
 	"go.sia.tech/core/consensus"
 	"go.sia.tech/core/types"
@@ -47,7 +48,12 @@ import (
 	"verif/harness/stats"
 )
 
-func TestMain(m *testing.M) { stats.Main(m) }
+func TestMain(m *testing.M) {
+	// generated times are instants; print them in UTC whatever zone the machine is in (historical
+	// local-mean-time offsets with seconds have no RFC 3339 form, which is not the library's concern)
+	time.Local = time.UTC
+	stats.Main(m)
+}
 
 // Case is one generated value of one table row. The value travels as a
 // library-independent tree (gen.Dump), never through the forms under test.
@@ -241,6 +247,9 @@ func policyFeatures(p types.SpendPolicy, depth int, f features) {
 			}
 			if needsQuote(k.Algorithm) {
 				f["quoted-specifier"] = true
+			}
+			if hasDelim(k.Algorithm) {
+				f["policy:uc-specifier-with-delimiter"] = true
 			}
 		}
 	case types.PolicyTypeAfter:
